@@ -74,13 +74,27 @@ func grtFollow(prop string) []string {
 	return genesisRTFollow
 }
 
+var longHistoryProps = map[string]bool{"C01": true, "C06": true, "C08": true, "C09": true, "C11": true, "C13": true}
+
+var longHistoryChains = [][]string{
+	{"empty", "gap_1d", "bond_lp1_D", "unbond_lp2_half", "llp_close_half_t1", "llp_open_t1_x2_again", "perp_close_half_t1", "perp_bot_close_all", "llp_bot_close_all", "mc_claim_lp1", "swap_in_p1_usdc_atom_L", "cfg_llp_fallback_on", "empty", "gap_1d"},
+	{"cfg_llp_fallback_on", "empty", "llp_close_full_t1", "perp_close_full_t1", "unbond_lp2_all", "exit_p1_10pct_lp1", "gap_30d", "empty"},
+	{ExportImportOp, "empty", "gap_1d", "llp_close_half_t1", "perp_close_half_t1"},
+}
+
 type grtUnit struct {
 	Prop string `json:"prop"`
 	Root string `json:"root"`
 	Op   string `json:"op"` // "" = the root itself
+	// Chain: when set, the unit is a plain LINEAR trace from the root (no export/import unless the chain names
+	// it), every block of it judged — used from roots that are too old for the rollback explorer (R20)
+	Chain []string `json:"chain,omitempty"`
 }
 
 func (u grtUnit) trace() []string {
+	if len(u.Chain) > 0 {
+		return append([]string{}, u.Chain...)
+	}
 	t := []string{}
 	if u.Op != "" {
 		t = append(t, u.Op)
@@ -110,6 +124,14 @@ func grtUnits(prop, tier string) []interface{} {
 			}
 		}
 	}
+	// LONG HISTORY (root R20: a thousand ordinary blocks since anything touched the open positions' debts):
+	// store rollback over a thousand versions is far too slow for the explorer, so the root is followed by
+	// fixed linear chains that visit every op family once, one of them through a genesis export / import
+	if longHistoryProps[prop] {
+		for _, c := range longHistoryChains {
+			us = append(us, grtUnit{Prop: prop, Root: "R20", Chain: c})
+		}
+	}
 	if !seen["R3|"] {
 		us = append(us, grtUnit{Prop: prop, Root: "R3", Op: ""}, grtUnit{Prop: prop, Root: "R3", Op: "gap_1d"})
 	}
@@ -130,7 +152,7 @@ func grtWorker(prop string) func(tier string) KUnitFunc {
 				return st
 			}
 			judgeFrom := 0
-			if u.Op != "" {
+			if u.Op != "" && len(u.Chain) == 0 {
 				judgeFrom = 1
 			}
 			tr := u.trace()
@@ -140,8 +162,12 @@ func grtWorker(prop string) func(tier string) KUnitFunc {
 			}
 			st.Evaluations = int64(len(tr))
 			st.Sequences = 1
-			st.States = []string{u.Root + "|" + u.Op}
-			st.Clauses["genesis_round_trips"]++
+			st.States = []string{u.Root + "|" + u.Op + strings.Join(u.Chain, ",")}
+			if len(u.Chain) > 0 {
+				st.Clauses["long_history_chains"]++
+			} else {
+				st.Clauses["genesis_round_trips"]++
+			}
 			seen := map[string]bool{}
 			for _, f := range fs {
 				if f.Clause == "genesis_export_import_failed" {
